@@ -1584,7 +1584,7 @@ def m_chars_next(I, st, call):
         if not st.dead:
             c = I.fresh_int(st, "char", (32, False), 0, 0x10FFFF, info=("char_at", it.get("base"), pos))
             # remember the width for this char (ASCII chars are one byte wide)
-            I.syminfo[c.aff.t[0][0]] = ("char", w)
+            I.syminfo[c.aff.t[0][0]] = ("char", w, it.get("base"), pos)     # width symbol, and where it was read
             I.write(st, ref.place, it.with_(pos=Aff.sym(np_)))
             I.str_boundaries.setdefault(it.get("base"), set()).add(Aff.sym(np_))
             out.append((st, mk_option(I, c, dt)))
